@@ -853,7 +853,7 @@ theorem atom_erase {f : (G → V) → (G → V)} {fp : Footprint G} (hf : Respec
     constant environment extending the knowledge used by `simp`: the original program on `d` and the
     normalised program on `d'` (equal to `d` outside `E`) end the same way with data equal outside `E`. -/
 theorem simp_sim {C : FpCtx G} {K : Known} {M : MEnv} {S : Sem (G → V)} (fuel : Nat) (hK : Extends M S K) (E : List G) :
-    ∀ (p : Prog) (aenv env : Env), EnvLe aenv env → Respects C S p → simpOK C E p = true →
+    ∀ (p : Prog) (aenv env : Env), EnvLe aenv env → Respects C S p → simpOK C E K aenv p = true →
     ∀ (d d' : G → V), AgreeOff E d d' →
       (run fuel M S env p d).1 = (run fuel M S env (simp C E K aenv p) d').1 ∧
       AgreeOff E (run fuel M S env p d).2 (run fuel M S env (simp C E K aenv p) d').2 := by
@@ -907,22 +907,25 @@ theorem simp_sim {C : FpCtx G} {K : Known} {M : MEnv} {S : Sem (G → V)} (fuel 
   | ite g t e iht ihe =>
     intro aenv env hle hR hok d d' h
     simp only [simpOK, Bool.and_eq_true] at hok
-    have hgr : Agree (C.cls g.reads) d d' := h.agree (disjoint_iff.mp hok.1.1)
+    have hgr : Agree (C.cls g.reads) d d' := h.agree (disjoint_iff.mp hok.1)
     have heq := Guard.eval_agree M env hR.1 hgr
+    have hok2 := hok.2
     simp only [simp]
     cases hae : g.aeval K aenv with
     | some b0 =>
       have hev := Guard.aeval_sound hK hle d hae
+      simp only [hae] at hok2
       cases b0 with
       | true =>
         simp only []
         rw [run_ite_true fuel M S hev]
-        exact iht aenv env hle hR.2.1 hok.1.2 d d' h
+        exact iht aenv env hle hR.2.1 hok2 d d' h
       | false =>
         simp only []
         rw [run_ite_false fuel M S hev]
-        exact ihe aenv env hle hR.2.2 hok.2 d d' h
+        exact ihe aenv env hle hR.2.2 hok2 d d' h
     | none =>
+      simp only [hae, Bool.and_eq_true] at hok2
       simp only []
       cases hev : g.eval M S env d with
       | none =>
@@ -933,10 +936,10 @@ theorem simp_sim {C : FpCtx G} {K : Known} {M : MEnv} {S : Sem (G → V)} (fuel 
         cases b with
         | true =>
           rw [run_ite_true fuel M S hev, run_ite_true fuel M S hev']
-          exact iht aenv env hle hR.2.1 hok.1.2 d d' h
+          exact iht aenv env hle hR.2.1 hok2.1 d d' h
         | false =>
           rw [run_ite_false fuel M S hev, run_ite_false fuel M S hev']
-          exact ihe aenv env hle hR.2.2 hok.2 d d' h
+          exact ihe aenv env hle hR.2.2 hok2.2 d d' h
   | loop g p ih =>
     intro aenv env hle hR hok d d' h
     simp only [simpOK, Bool.and_eq_true] at hok
@@ -979,5 +982,191 @@ theorem simp_sim {C : FpCtx G} {K : Known} {M : MEnv} {S : Sem (G → V)} (fuel 
       exact hp
 
 end SimpSim
+
+/-! ### splitting a normalised program into a skipped prefix and the rest -/
+section Split
+variable {D : Type} (fuel : Nat) (M : MEnv) (S : Sem D)
+
+theorem run_stripSuffix (env : Env) : ∀ (F R P : Prog), stripSuffix F R = some P → ∀ d : D,
+    run fuel M S env F d = run fuel M S env (.seq P R) d := by
+  intro F
+  induction F with
+  | seq a b _ ihb =>
+    intro R P h d
+    simp only [stripSuffix] at h
+    by_cases he : Prog.seq a b = R
+    · simp only [he, if_true, Option.some.injEq] at h
+      subst h; subst he
+      rw [run_seq fuel M S env .skip]; simp [run, bindR]
+    · simp only [he, if_false, Option.map_eq_some_iff] at h
+      obtain ⟨P', hP', rfl⟩ := h
+      rw [run_seq, run_seq fuel M S env (.seq a P'), run_seq fuel M S env a P', bindR_assoc]
+      congr 1
+      funext d1
+      rw [ihb R P' hP' d1, run_seq]
+  | skip | call _ _ _ | atom _ _ _ _ | err | ret | ite _ _ _ _ _ | loop _ _ _ | scope _ _ _ _ =>
+    intro R P h d
+    simp only [stripSuffix] at h
+    split at h
+    · next he =>
+      simp only [Option.some.injEq] at h
+      subst h; subst he
+      rw [run_seq fuel M S env .skip]; simp [run, bindR]
+    · cases h
+
+end Split
+
+section SplitRespects
+variable {G V : Type} [DecidableEq G]
+
+theorem Respects_stripSuffix {C : FpCtx G} {S : Sem (G → V)} : ∀ (F R P : Prog), stripSuffix F R = some P →
+    Respects C S F → Respects C S P ∧ Respects C S R := by
+  intro F
+  induction F with
+  | seq a b _ ihb =>
+    intro R P h hF
+    simp only [stripSuffix] at h
+    by_cases he : Prog.seq a b = R
+    · simp only [he, if_true, Option.some.injEq] at h
+      subst h; subst he
+      exact ⟨trivial, hF⟩
+    · simp only [he, if_false, Option.map_eq_some_iff] at h
+      obtain ⟨P', hP', rfl⟩ := h
+      have := ihb R P' hP' hF.2
+      exact ⟨⟨hF.1, this.1⟩, this.2⟩
+  | skip | call _ _ _ | atom _ _ _ _ | err | ret | ite _ _ _ _ _ | loop _ _ _ | scope _ _ _ _ =>
+    intro R P h hF
+    simp only [stripSuffix] at h
+    split at h
+    · next he =>
+      simp only [Option.some.injEq] at h
+      subst h; subst he
+      exact ⟨trivial, hF⟩
+    · cases h
+
+theorem Respects_mkSeq {C : FpCtx G} {S : Sem (G → V)} (p q : Prog) (hp : Respects C S p) (hq : Respects C S q) :
+    Respects C S (mkSeq p q) := by
+  fun_induction mkSeq p q with
+  | case1 q => exact hq
+  | case2 a b q ih => exact ⟨hp.1, ih hp.2 hq⟩
+  | case3 p _ _ => exact hp
+  | case4 p q _ _ _ => exact ⟨hp, hq⟩
+
+/-- the normalised program only contains atoms / guards of the original one -/
+theorem Respects_simp {C : FpCtx G} {S : Sem (G → V)} (E : List G) (K : Known) :
+    ∀ (p : Prog) (env : Env), Respects C S p → Respects C S (simp C E K env p) := by
+  intro p
+  induction p with
+  | skip => intro _ h; exact h
+  | err => intro _ h; exact h
+  | ret => intro _ h; exact h
+  | atom t r w k =>
+    intro _ h
+    simp only [simp]
+    split
+    · trivial
+    · exact h
+  | call f key args =>
+    intro _ h
+    simp only [simp]
+    cases hs : C.stage key with
+    | none => exact h
+    | some fp =>
+      simp only []
+      split
+      · trivial
+      · exact h
+  | seq p q ihp ihq =>
+    intro env h
+    simp only [simp]
+    exact Respects_mkSeq _ _ (ihp env h.1) (ihq env h.2)
+  | ite g t e iht ihe =>
+    intro env h
+    simp only [simp]
+    cases hae : g.aeval K env with
+    | none => exact ⟨h.1, iht env h.2.1, ihe env h.2.2⟩
+    | some b =>
+      cases b with
+      | true => exact iht env h.2.1
+      | false => exact ihe env h.2.2
+  | loop g p ih =>
+    intro env h
+    simp only [simp]
+    exact ⟨h.1, ih env h.2⟩
+  | scope f b p ih =>
+    intro env h
+    simp only [simp]
+    split
+    · exact ih _ h
+    · exact ih _ h
+
+/-- **Replay.**  `d1` is what a previous run of `P ; R` left behind.  If nothing that `P` reads is written by
+    `P` or `R`, nothing that `P` determines is written by `R`, and `R` reads none of the groups
+    `J = may(P) \ determined(P)` that `P` only partially rewrites, then running `P ; R` again on `d1` and
+    running only `R` on `d1` end the same way and agree on every group outside `J` that is in `I`, and on
+    what `R` determines. -/
+theorem replay {C : FpCtx G} {K : Known} {M : MEnv} {S : Sem (G → V)} (fuel : Nat) (hK : Extends M S K)
+    (P R : Prog) (env : Env) (hRP : Respects C S P) (hRR : Respects C S R)
+    (hbP : (abs C K env P).bad = []) (hbR : (abs C K env R).bad = [])
+    (kP : List G) (hkP : (abs C K env P).killN = some kP)
+    (hA : disjoint (abs C K env P).rbw (uni (abs C K env P).may (abs C K env R).may) = true)
+    (hKR : disjoint kP (abs C K env R).may = true)
+    (I : List G) (hIR : subset (abs C K env R).rbw I = true)
+    (hIJ : disjoint I (diff (abs C K env P).may kP) = true)
+    (d0 d1 : G → V) (hprev : run fuel M S env (.seq P R) d0 = (.norm, d1)) :
+    (run fuel M S env (.seq P R) d1).1 = (run fuel M S env R d1).1 ∧
+    Agree I (run fuel M S env (.seq P R) d1).2 (run fuel M S env R d1).2 ∧
+    ((run fuel M S env R d1).1 = .norm → ∀ k, (abs C K env R).killN = some k →
+      Agree k (run fuel M S env (.seq P R) d1).2 (run fuel M S env R d1).2) := by
+  -- the previous run: P fell through to e, then R fell through to d1
+  have hP0 : (run fuel M S env P d0).1 = .norm := by
+    by_cases hne : (run fuel M S env P d0).1 = .norm
+    · exact hne
+    · rw [run_seq_stop fuel M S hne] at hprev
+      exact absurd (by rw [hprev]) hne
+  have e0 : run fuel M S env P d0 = (.norm, (run fuel M S env P d0).2) := by rw [← hP0]
+  have hR0 : run fuel M S env R (run fuel M S env P d0).2 = (.norm, d1) := by
+    rw [run_seq_norm fuel M S e0] at hprev; exact hprev
+  -- d1 agrees with d0 on what P reads
+  have hA' := disjoint_iff.mp hA
+  have hd10 : Agree (abs C K env P).rbw d1 d0 := by
+    intro g hg
+    have hgP : g ∉ (abs C K env P).may := fun h => hA' g hg (mem_uni.mpr (Or.inl h))
+    have hgR : g ∉ (abs C K env R).may := fun h => hA' g hg (mem_uni.mpr (Or.inr h))
+    have h1 := frame_sound fuel hK R env env (EnvLe.refl _) hRR hbR g hgR (run fuel M S env P d0).2
+    have h2 := frame_sound fuel hK P env env (EnvLe.refl _) hRP hbP g hgP d0
+    rw [hR0] at h1
+    exact (show d1 g = _ from h1).trans h2
+  -- so P on d1 ends like P on d0 and determines the same values
+  have hni := abs_sound (C := C) (K := K) fuel hK P env env (EnvLe.refl _) hRP hbP _ (fun _ h => h) d1 d0 hd10
+  have hP1 : (run fuel M S env P d1).1 = .norm := by rw [hni.out]; exact hP0
+  obtain ⟨k', hk', hagk⟩ := hni.norm hP1
+  rw [hkP] at hk'
+  cases hk'
+  -- P on d1 gives back d1 outside J
+  have hback : Agree I (run fuel M S env P d1).2 d1 := by
+    intro g hg
+    by_cases hgm : g ∈ (abs C K env P).may
+    · have hgk : g ∈ kP := by
+        by_cases hnk : g ∈ kP
+        · exact hnk
+        · exact absurd (mem_diff.mpr ⟨hgm, hnk⟩) (disjoint_iff.mp hIJ g hg)
+      have hgR : g ∉ (abs C K env R).may := disjoint_iff.mp hKR g hgk
+      have h1 := frame_sound fuel hK R env env (EnvLe.refl _) hRR hbR g hgR (run fuel M S env P d0).2
+      rw [hR0] at h1
+      exact (hagk g hgk).trans (show d1 g = _ from h1).symm
+    · exact frame_sound fuel hK P env env (EnvLe.refl _) hRP hbP g hgm d1
+  have e1 : run fuel M S env P d1 = (.norm, (run fuel M S env P d1).2) := by rw [← hP1]
+  rw [run_seq_norm fuel M S e1]
+  have hr := abs_sound (C := C) (K := K) fuel hK R env env (EnvLe.refl _) hRR hbR I (subset_iff.mp hIR) _ _ hback
+  refine ⟨hr.out, hr.agree, ?_⟩
+  intro hn k hk
+  have hn' : (run fuel M S env R (run fuel M S env P d1).2).1 = .norm := by rw [hr.out]; exact hn
+  obtain ⟨k2, hk2, hag2⟩ := hr.norm hn'
+  rw [hk] at hk2
+  cases hk2
+  exact hag2
+
+end SplitRespects
 
 end MjProof.Prog
